@@ -2,6 +2,7 @@ package props
 
 import (
 	"fmt"
+	"math"
 	"math/rand"
 	"strings"
 	"sync"
@@ -41,11 +42,13 @@ func refWindow(buf []string, off, lim int) []string {
 	}
 	start := n - off
 	end := n
-	if lim >= 1 && start+lim < n {
+	if lim >= 1 && lim < n-start {
 		end = start + lim
 	}
 	return buf[start:end]
 }
+
+var lbExtremes = []int{math.MaxInt, math.MaxInt - 1, math.MaxInt - 7, math.MinInt, math.MinInt + 1, math.MaxInt32, math.MaxInt32 + 1, math.MinInt32, 1 << 62, -(1 << 62)}
 
 func eqStrs(a, b []string) bool {
 	if len(a) != len(b) {
@@ -129,6 +132,23 @@ func runLogSeq(c fw.Case) fw.Result {
 					goto done
 				}
 			}
+		}
+		// extreme parameters (as a client may send them): near the integer limits
+		for _, off := range append(lbExtremes, 0, 1, n-1, n, n/2) {
+			for _, lim := range append(lbExtremes, 0, 1, n) {
+				got, p := safeRange(b, off, lim)
+				checks++
+				if p != nil {
+					r.Add("C18", "range-panic", "size %d, %d lines: GetLogRange(%d,%d) panicked: %v", sp.Size, n, off, lim, p)
+					continue
+				}
+				if want := refWindow(ref.buf, off, lim); !eqStrs(got, want) {
+					r.Add("C18", "range-window", "size %d, %d lines: GetLogRange(%d,%d) returned %d lines %v, reference window %v", sp.Size, n, off, lim, len(got), trunc(got), trunc(want))
+				}
+			}
+		}
+		if len(r.Findings) > 5 {
+			goto done
 		}
 		// windows handed out earlier must not change when the log moves on
 		for hi := 0; hi < len(helds); hi++ {
